@@ -1147,7 +1147,15 @@ func formatWith(w *WithClause, f *formatter) string {
 		if len(cte.Columns) > 0 {
 			s += "(" + nameListSQL(cte.Columns) + ") "
 		}
-		s += f.kw("AS") + " ("
+		s += f.kw("AS") + " "
+		if cte.Materialized != nil {
+			if *cte.Materialized {
+				s += f.kw("MATERIALIZED") + " "
+			} else {
+				s += f.kw("NOT MATERIALIZED") + " "
+			}
+		}
+		s += "("
 		if qs, ok := cte.Statement.(Formatter); ok {
 			s += qs.Format(nestedOptions(f.opts))
 		} else {
